@@ -257,6 +257,18 @@ AppendPrunedSubtree(pos0) ==
     /\ cut' = n'
     /\ UNCHANGED <<ls, df, bad>>
 
+\* A unit of work that appended a pruned subtree and is then DISCARDED instead of synced: PMMRBackend::discard
+\* restores the two files and the leaf set but not the prune list (it was changed in memory by
+\* append_pruned_subtree).  State sync never discards such a unit (segments are validated before they are
+\* applied), so the action is outside the protocol; it exists only under the probe switch, where TLC shows
+\* that the layout breaks (the real backend reproduces it: unpruned_size 5 instead of 3).
+SubtreeThenDiscard(pos0) ==
+    /\ Mut = "discard" /\ WithSubtrees
+    /\ Height(pos0) >= 1 /\ Leftmost(pos0) = SizeOf(n)
+    /\ n + Cardinality(LeavesUnder(pos0)) <= MaxLeaves
+    /\ pl' = AppendC(pl, pos0)
+    /\ UNCHANGED <<n, spent, cmp, ls, hf, df, cut, bad>>
+
 LiveBelow(k) == {l \in spent \ cmp : l < SizeOf(k)}
 \* the "removed since the boundary" bitmaps the model tries: none, each single leaf, all (Full: every subset)
 CONSTANT FullRewindSets
@@ -269,6 +281,7 @@ Next ==
     \/ \E k \in cut..n : \E rw \in RWChoices(k) : Rewind(k, rw)
     \/ Reopen
     \/ \E p0 \in 0..U : AppendPrunedSubtree(p0)
+    \/ \E p0 \in 0..U : SubtreeThenDiscard(p0)
 
 Spec == Init /\ [][Next]_vars
 
